@@ -49,6 +49,7 @@ func (b *bufferPool) Put(buffer *bytes.Buffer) {
 	if buffer.Cap() > maxRecycleBufferSize {
 		return
 	}
+	verifPoisonBuffer(buffer) // no-op unless built with -tags verif
 	buffer.Reset()
 	b.Pool.Put(buffer)
 }
